@@ -128,12 +128,38 @@ def group_members(pgid=None):
     return out
 
 
+OWN_GROUP = False  # set by the runner once this process leads a process group of its own
+
+
+def own_group():
+    """make this process the leader of a fresh process group, so that everything it starts can be found later"""
+    global OWN_GROUP
+    if os.getpgrp() == os.getpid():
+        # already a group leader - e.g. the first process of a shell pipeline, whose group contains the other
+        # pipeline members: that group is not ours to clean up
+        OWN_GROUP = False
+        return
+    try:
+        os.setpgid(0, 0)
+    except OSError:
+        pass
+    OWN_GROUP = os.getpgrp() == os.getpid()
+
+
+def leftovers():
+    pids = set(descendants())
+    if OWN_GROUP:  # never touch a process group we merely belong to (that would be the invoking shell's pipeline)
+        pids |= set(group_members())
+    return pids
+
+
 def kill_leftovers():
-    """SIGKILL every descendant and every other member of our process group; -> number of processes killed"""
+    """SIGKILL every descendant and (if we lead our own process group) every other member of it;
+    -> number of processes killed"""
     import signal
 
     n = 0
-    for pid in set(descendants()) | set(group_members()):
+    for pid in leftovers():
         try:
             os.kill(pid, signal.SIGKILL)
             n += 1
@@ -168,7 +194,7 @@ class Watchdog:
         import signal
 
         self.fired = True
-        for pid in list(set(descendants()) | set(group_members())) + self.extra:
+        for pid in list(leftovers()) + self.extra:
             try:
                 os.kill(pid, signal.SIGKILL)
             except OSError:
